@@ -6,6 +6,7 @@
    empty for the files this property is anchored in). *)
 From Coq Require Import List String ZArith NArith Bool Lia.
 Import ListNotations.
+From DV Require Import Model.Decision Gen.DecisionSrc Proofs.ParseFileProofs.
 From DV Require Import Model.Tree Model.Tables Model.Skeleton Model.FragSkel Model.Link Model.Restore
      Model.Fragment Proofs.LinkProofs Proofs.LinkPanic Proofs.RestoreProofs Proofs.DupProofs Proofs.FragSafe
      Gen.Universe Gen.DataTbl Gen.FragTbl Gen.RestTbl Gen.ImportsSrc Gen.ErrProp Gen.PanicSites.
@@ -100,9 +101,27 @@ Example C15_nonvacuous :
   seg_ok fs = true /\ l_panic (link fs) = false.
 Proof. vm_compute. split; reflexivity. Qed.
 
+
+(* Decorator.ParseFile (and Parse, ParseDir's per-file use) is translated on every run (functions with several
+   results: "return a, b" as one symbol, "a, b := CALL" as the two components of the call) and proved to
+   compute, for every answer of the parser and of the decoration: nothing and the parser's error when the
+   parser returned no file or a placeholder without a position; else nothing and the decoration's error (a
+   failing resolver) whatever the parser reported; else the decorated file together with the parser's error *)
+Theorem C15_parsefile_source_computes_the_model :
+  (forall perr_nil file_nil pos_valid dec_fails,
+    pf_outcome (run (pf_val perr_nil file_nil pos_valid dec_fails) parsefile_src)
+    = Some (parsefile_spec perr_nil file_nil pos_valid dec_fails)) /\
+  (forall perr_nil, parsefile_spec perr_nil false true true = NothingWithDecorationError).
+Proof. split; [exact parsefile_source_is_model | exact decoration_error_wins]. Qed.
+
+Theorem C15_parsefile_source_is_within_the_vocabulary : parsefile_vocabulary_ok = true.
+Proof. vm_compute. reflexivity. Qed.
+
 Print Assumptions C15_link_does_not_panic.
 Print Assumptions C15_every_node_bracketed_by_points.
 Print Assumptions C15_fragment_dereferences_no_nil_child.
 Print Assumptions C15_restore_produces_a_file.
 Print Assumptions C15_panic_sites_are_the_audited_ones.
 Print Assumptions C15_errors_are_returned.
+Print Assumptions C15_parsefile_source_computes_the_model.
+Print Assumptions C15_parsefile_source_is_within_the_vocabulary.
